@@ -151,12 +151,13 @@ class World:
         self.dir = tempfile.mkdtemp(prefix='v', dir=base)
         self.cfg = cfg
         self.limit = cfg['limit']
-        self.single = cfg['single']
+        self.fname = cfg['fname']
+        # only a name ending in exactly '_dir.vpk' is a directory archive (what the code does: case-sensitive)
+        self.single = not self.fname.endswith('_dir.vpk')
         self.narch = cfg['narch']
         self.con = Contents(cfg['sz'], self.limit, seed)
         self.names = names                      # abstract -> (folder, name, ext)
         self.back = {join_name(*t): n for n, t in names.items()}
-        self.fname = 'pak01.vpk' if self.single else 'pak01_dir.vpk'
         self.path = os.path.join(self.dir, self.fname)
         self.vpk = None
         self.want: dict = {}
@@ -166,6 +167,9 @@ class World:
 
     def close(self) -> None:
         shutil.rmtree(self.dir, ignore_errors=True)
+
+    def arch_path(self, k: int) -> str:
+        return os.path.join(self.dir, f'{self.fname[:-len("_dir.vpk")]}_{k:03}.vpk')
 
     # -- projection
     def _entry(self, crc, pre, idx, off, ln) -> dict:
@@ -207,13 +211,19 @@ class World:
             foot = self.con.describe(self.vpk.footer_data)
         arch = []
         for k in range(self.narch):
-            p = os.path.join(self.dir, f'pak01_{k:03}.vpk')
-            if os.path.exists(p):
+            p = self.arch_path(k)
+            if not self.single and os.path.exists(p):
                 with open(p, 'rb') as f:
                     arch.append(self.con.describe(f.read()))
             else:
                 arch.append([])
-        return {'mode': mode, 'tree': tree, 'foot': foot, 'arch': arch, 'disk': self._disk(),
+        files = {}
+        for nm in sorted(os.listdir(self.dir)):
+            if nm != self.fname:
+                with open(os.path.join(self.dir, nm), 'rb') as f:
+                    files[nm] = self.con.describe(f.read())
+        # 'arch' (by the harness's own naming) is only used to follow the model in a walk; TLC judges 'files'
+        return {'mode': mode, 'tree': tree, 'foot': foot, 'arch': arch, 'files': files, 'disk': self._disk(),
                 'want': dict(self.want), 'wantDisk': dict(self.want_disk)}
 
     # -- put the files of a model state on disk with the harness's own encoder (no srctools involved)
@@ -223,7 +233,7 @@ class World:
     def synth(self, state: dict) -> None:
         for k, segs in enumerate(state['arch']):
             if segs:
-                with open(os.path.join(self.dir, f'pak01_{k:03}.vpk'), 'wb') as f:
+                with open(self.arch_path(k), 'wb') as f:
                     f.write(self._bytes(segs))
         d = state['disk']
         tree: dict = {}
@@ -374,7 +384,7 @@ class World:
         post = self.project()
         synth, self.synth_state = self.synth_state, {}
         rec = {'k': 'step', 't': t, 'i': len(self.hist), 'how': how, 'synth': synth,
-               'cfg': {'sz': self.con.sizes, 'limit': self.limit, 'single': self.single, 'narch': self.narch,
+               'cfg': {'sz': self.con.sizes, 'limit': self.limit, 'fname': self.fname, 'narch': self.narch,
                        'names': {n: list(tr) for n, tr in self.names.items()}},
                'sig': self.sig(a, pre), 'pre': pre, 'a': a, 'res': res, 'post': post, 'obs': self.observe()}
         out.write(rec)
@@ -401,6 +411,7 @@ def canon_fn(o):
 def same_state(tla: dict, proj: dict) -> bool:
     def norm(s):
         s = canon(s)
+        s.pop('files', None)
         for k in ('tree', 'want', 'wantDisk'):
             if s.get(k) == []:
                 s[k] = {}
@@ -592,7 +603,8 @@ def mode_random(out_path: str) -> None:
         ntraces = 250 if thorough else 14
         for t in range(1, ntraces + 1):
             limit = rnd.choice([-1, 0, 1, 2, 100, 1024, 1024, 4096, 65535, 65536, 70000])
-            single = rnd.random() < 0.2
+            fname = rnd.choice(['pak01_dir.vpk', '_dir.vpk', 'x_dir_dir.vpk', 'a.b_dir.vpk', 'pak01_dir.vpk', '_dir.vpk',
+                                'foo.vpk', 'pak_DIR.vpk', 'pak_dir.VPK', 'dir.vpk'])
             sizes = []
             for _ in range(rnd.randrange(3, 7)):
                 r = rnd.random()
@@ -603,7 +615,7 @@ def mode_random(out_path: str) -> None:
                 else:
                     sizes.append(rnd.randrange(1, 307201))
             names = ['n1', 'n2', 'n3', 'n4'][:rnd.randrange(2, 5)]
-            cfg = {'sz': sizes, 'limit': limit, 'single': single, 'narch': 3, 'names': names}
+            cfg = {'sz': sizes, 'limit': limit, 'fname': fname, 'narch': 3, 'names': names}
             world = World(base, cfg, hlib.seed() * 1000 + t, pick_names(names, rnd))
             steps = rnd.randrange(8, 30)
             a = {'op': 'reopen', 'n': '', 'c': 0, 'a': -1, 'm': rnd.choice(['w', 'a', 'w', 'r']), 'form': 's'}
